@@ -17,7 +17,7 @@ build() { cmake --build _build -j16 --target tests 2>&1 | tail -2 | grep -E "err
 rundemo() {
   if [ -f $D/demo.sh ]; then (cd $D && WT=$WT bash ./demo.sh $WT) >/tmp/wt/confirm.demo.log 2>&1; return $?; fi
   EXTRA=""; grep -q "fsanitize" $D/meta.json 2>/dev/null && EXTRA="-fsanitize=address -g"
-  g++ -std=c++11 $EXTRA -I$WT/include $D/demo.cpp -L$WT/_build/lib -ltins -lpcap -lpthread -o /tmp/wt/confirm.demo 2>/tmp/wt/confirm.demo.log || { echo "demo does not compile"; cat /tmp/wt/confirm.demo.log | head; return 99; }
+  g++ -std=c++11 $EXTRA -I$WT/include $D/demo.cpp -L$WT/_build/lib -ltins -lpcap -lcrypto -lpthread -Wno-deprecated-declarations -o /tmp/wt/confirm.demo 2>/tmp/wt/confirm.demo.log || { echo "demo does not compile"; cat /tmp/wt/confirm.demo.log | head; return 99; }
   LD_LIBRARY_PATH=$WT/_build/lib timeout 120 /tmp/wt/confirm.demo >/tmp/wt/confirm.demo.log 2>&1; return $?
 }
 build || { echo "RESULT base build failed"; exit 2; }
